@@ -648,7 +648,9 @@ for _i in [1, 2, 3, 4, 5, 6, 7, 8, 10, 11, 12, 13, 14, 15, 16, 17, 18, 19, 20]:
     for _t, _w in (("@kwargs_calls", "calls to the repository's own functions re-spelled with keyword arguments in reversed order"),
                    ("@strip_docs_annotate", "docstrings removed, parameters and returns annotated"),
                    ("@logging", "a module logger and a debug call at the start of every function"),
-                   ("@coerce_params", "matrix parameters of the graph utilities coerced with np.asarray at function entry")):
+                   ("@coerce_params", "matrix parameters of the graph utilities coerced with np.asarray at function entry"),
+                   ("@early_exit", "no else after return / raise: the else body follows the if"),
+                   ("@numpy_alias", "import numpy (no alias), every np.x spelled numpy.x")):
         VARIANTS.append(dict(id="%s-c%02d" % (_t[1:].replace("_", "-"), _i), prop="C%02d" % _i, expect="silent", edits=[(_t,)], rule=None, what=_w))
 V("c14-shuffle-keyword-on-caller-data", "C14", "fire", UT, "        n = len(sample)\n        sample = sample.copy()\n        rng.shuffle(sample)\n", "        n = len(sample)\n        rng.shuffle(x=sample)\n", rule="M1.param", what="in-place shuffle of the caller's array, argument passed by keyword")
 V("c17-silent-shuffle-keyword", "C17", "silent", UT, "        rng.shuffle(sample)\n", "        rng.shuffle(x=sample)\n", what="shuffle argument passed by keyword")
